@@ -310,6 +310,12 @@ def run(env):
     env.require_complete(res, "tamper")
     mr = env.pmap(monitor, res.sessions, workload="tamper")
     env.extra_cov["sessions"] = len(res.sessions)
+    # what a user ships, and what a fuzzing harness links (cfg(fuzzing) on every crate of the graph)
+    small = build(env, env.pick(10, 60), 17, ss).text()
+    for b in ("fast", "cfg-fuzzing"):
+        rb = env.drive("tamper", small, build=b)
+        env.require_complete(rb, "tamper/" + b)
+        env.pmap(monitor, rb.sessions, workload="tamper")
     cw2, found = build_directed(env, env.pick(12, 120))
     res2 = env.drive("directed", cw2.text())
     env.require_complete(res2, "directed")
